@@ -111,7 +111,8 @@ func fixedScriptCorpus() []scriptCase {
 			src:  progPrelude + globalsPrelude() + "function f(g) { let Comp = g(); return <Comp x={C}/> }\n$p(\"r\", f(() => \"dComp\"));\n",
 			opts: jsxOpts, optDesc: "minify-identifiers jsx=preserve"},
 		{kind: "script", scenario: "jsx-capital-skips-reserved-all-capitals",
-			src: progPrelude + globalsPrelude() + "function f(g) { let Comp = g(); return <Comp x={[typeof A, typeof B, typeof C, typeof D, typeof E, typeof F, typeof G, typeof H, typeof I, typeof J, typeof K, typeof L, typeof M, typeof N, typeof O, typeof P, typeof Q, typeof R, typeof S, typeof T, typeof U, typeof V, typeof W, typeof X, typeof Y, typeof Z, typeof _, typeof $].join()}/> }\n" +
+			src: progPrelude + globalsPrelude() + "$g.$r = function (f) { try { return String(f()); } catch (e) { return \"!\"; } };\n" +
+				"function f(g) { let Comp = g(); return <Comp x={[" + jsxCandidates() + "].join()}/> }\n" +
 				"$p(\"r\", f(() => \"dComp\"));\n",
 			opts: jsxOpts, optDesc: "minify-identifiers jsx=preserve"},
 		{kind: "script", scenario: "annexb-function-in-block-shadows-parameter",
@@ -136,6 +137,15 @@ func fixedScriptCorpus() []scriptCase {
 			src:  progPrelude + globalsPrelude() + "with ({ a: 1, b: 1, c: 1, d: 1, e: 1, f: 1, g: 1, h: 1, i: 1, j: 1, k: 1, l: 1, m: 1, n: 1, o: 1, p: 1, q: 1, r: 1, s: 1, t: 1, u: 1, v: 1, w: 1, x: 1, y: 1, z: 1 }) {\n  class K {}\n  $p(\"r\", typeof K);\n}\n",
 			opts: api.TransformOptions{Loader: api.LoaderJS, KeepNames: true, MinifyIdentifiers: true, LogLevel: api.LogLevelSilent}, optDesc: "keep-names minify-identifiers"},
 	}
+}
+
+// every name the JSX capital-letter loop can stop at (not a-z), read as a free name
+func jsxCandidates() string {
+	var l []string
+	for _, c := range "ABCDEFGHIJKLMNOPQRSTUVWXYZ_$" {
+		l = append(l, fmt.Sprintf("$r(() => %c)", c))
+	}
+	return strings.Join(l, ", ")
 }
 
 // JSX output cannot run: lower it with a second, non-renaming transform
@@ -525,7 +535,9 @@ func runBuildCases(r *Rng, n int, st *Stats, feat map[string]int) {
 
 func runGlue(r *Rng, n int, tier string, st *Stats) {
 	feat := map[string]int{}
-	cases := fixedScriptCorpus()
+	// the fixed corpus (inputs of recorded or fixed findings) runs first
+	runScriptCases(fixedScriptCorpus(), st)
+	var cases []scriptCase
 	ns := n / 3
 	if ns < 40 {
 		ns = 40
